@@ -37,8 +37,12 @@ type scenario struct {
 	Name    string `json:"name"`
 	Readers int    `json:"readers"`
 	Begin   bool   `json:"begin"` // readers use Begin/Rollback instead of View
-	Bound   int    `json:"bound"`
-	Choices []int  `json:"choices,omitempty"`
+	// Writers == 2: two threads each run one read-modify-write Update (read the
+	// counter n, store n+1, add an own key): writers are serialized, so the
+	// second one to get the write lock has to see the first one's commit
+	Writers int   `json:"writers,omitempty"`
+	Bound   int   `json:"bound"`
+	Choices []int `json:"choices,omitempty"`
 }
 
 type result struct {
@@ -122,7 +126,7 @@ func freshDB() database.DB {
 	ffldb.VerifSetFlushPolicy(sharedDB, 0, 1<<40) // the reset commit flushes everything
 	err := sharedDB.Update(func(tx database.Tx) error {
 		m := tx.Metadata()
-		for _, k := range []string{"a", "b", "t1", "t2", "t3"} {
+		for _, k := range []string{"a", "b", "t1", "t2", "t3", "n", "w1", "w2"} {
 			if err := m.Delete([]byte(k)); err != nil {
 				return err
 			}
@@ -142,6 +146,45 @@ func runOnce(sc scenario, prefix []int) (*vsched.Exec, []string, int) {
 	db := freshDB()
 	var problems []string
 	stale := 0
+	if sc.Writers == 2 {
+		body := func() {
+			var wg waitGroup
+			ffldb.VerifSetFlushPolicy(db, time.Hour*1000, 1<<40)
+			for w := 1; w <= 2; w++ {
+				w := w
+				wg.n++
+				vsched.Go(fmt.Sprintf("writer%d", w), func() {
+					defer func() { wg.n-- }()
+					err := db.Update(func(tx database.Tx) error {
+						m := tx.Metadata()
+						n := 0
+						if v := m.Get([]byte("n")); v != nil {
+							fmt.Sscan(string(v), &n)
+						}
+						vsched.Yield("writer between read and write")
+						if err := m.Put([]byte("n"), []byte(fmt.Sprint(n+1))); err != nil {
+							return err
+						}
+						return m.Put([]byte(fmt.Sprintf("w%d", w)), []byte{1})
+					})
+					if err != nil {
+						problems = append(problems, fmt.Sprintf("Update of writer %d: %v", w, err))
+					}
+				})
+			}
+			wg.wait()
+			db.View(func(tx database.Tx) error {
+				m := tx.Metadata()
+				n, w1, w2 := string(m.Get([]byte("n"))), m.Get([]byte("w1")) != nil, m.Get([]byte("w2")) != nil
+				if n != "2" || !w1 || !w2 {
+					problems = append(problems, fmt.Sprintf("two serialized read-modify-write updates of a counter end with n=%q w1=%v w2=%v (lost update: the later writer did not see the earlier commit)", n, w1, w2))
+				}
+				return nil
+			})
+		}
+		x := vsched.RunOnce(prefix, 5000, body)
+		return x, problems, 0
+	}
 	body := func() {
 		var wg waitGroup
 		committed := 0 // number of commits that have RETURNED
@@ -242,7 +285,9 @@ func main() {
 			return "unfinished", "execution did not finish"
 		case len(problems) > 0:
 			cls := "isolation"
-			if strings.Contains(problems[0], "not the state after a prefix") {
+			if strings.Contains(problems[0], "lost update") {
+				cls = "lost-update"
+			} else if strings.Contains(problems[0], "not the state after a prefix") {
 				cls = "non-prefix-snapshot"
 			} else if strings.Contains(problems[0], "non-repeatable") {
 				cls = "non-repeatable-read"
